@@ -15,6 +15,7 @@ import (
 	"runtime/debug"
 	"sort"
 	"strings"
+	"testing/synctest"
 	"time"
 )
 
@@ -46,6 +47,7 @@ type vfBrowser struct {
 	order  int
 	ua     string
 	issued []*vfCookie // every cookie value ever stored (for replay)
+	ctx    context.Context // default request context (free-running passes tag requests with the client's name)
 }
 
 func (w *vfWorld) NewBrowser(name, addr string) *vfBrowser {
@@ -392,6 +394,9 @@ func (b *vfBrowser) Do(rep *vfReplica, r *vfReq) *vfResp {
 	}
 	ctx := r.Ctx
 	if ctx == nil {
+		ctx = b.ctx
+	}
+	if ctx == nil {
 		ctx = context.Background()
 	}
 	// browser patience: a request that hangs is abandoned after 90 simulated seconds
@@ -399,7 +404,9 @@ func (b *vfBrowser) Do(rep *vfReplica, r *vfReq) *vfResp {
 	defer cancel()
 	hr = hr.WithContext(ctx)
 	resp.HTTPReq = hr
+	w.mu.Lock()
 	w.requests++
+	w.mu.Unlock()
 	upMark := w.upMark()
 	idpMark := 0
 	if w.idp != nil {
@@ -448,6 +455,12 @@ func (b *vfBrowser) Do(rep *vfReplica, r *vfReq) *vfResp {
 		}
 	}
 	vfMonitors(w, b, rep, resp)
+	if task == "" && !w.sched.isActive() {
+		// sequential mode: let helper goroutines inside the libraries (go-oidc's key-fetch bookkeeping, transport
+		// clean-up, server-side handler epilogues) come to rest before the driver continues, so that their
+		// effects never race with the next request
+		synctest.Wait()
+	}
 	return resp
 }
 
